@@ -140,7 +140,9 @@ def rand_list(rnd, n):
             elif r < p_missing * 0.8:
                 pass
             elif r < p_missing:
-                ind[key] = {"x": v, "y": None}
+                # (a dict-valued reading is a present reading of another type, not a missing one:
+                # outside the statement of C16 - see DESIGN.md, corrected false alarms)
+                ind[key] = None
             else:
                 ind[key] = v
         out.append(Candle(open=o, high=h, low=l, close=c, volume=rnd.randint(0, 50), indicators=ind))
